@@ -40,6 +40,8 @@ class Prop(SeqProp):
     def mk(self, scores, intervals, label=""):
         s = " ".join(map(str, scores))
         ops = [("combos " + s).rstrip()] + [(f"mincomb {a} {b} " + s).rstrip() for a, b in intervals]
+        # a direct call on the scores as elements (repeats are the point), key = sum
+        ops.append(("combosE " + s).rstrip())
         return Case(ops, {"scores": scores}, label)
 
     def gen(self, rng, n, tier):
@@ -79,6 +81,14 @@ class Prop(SeqProp):
                     if [c for c, _ in full] != plain:
                         line += " yield_key-mismatch"
                     out.append(line)
+                elif w[0] == "combosE":
+                    es = [int(x) for x in w[1:]]
+                    full = list(g.sorted_combinations(es, sum, yield_key=True))
+                    plain = list(g.sorted_combinations(tuple(es), sum))
+                    line = fmt(full)
+                    if [c for c, _ in full] != plain:
+                        line += " yield_key-mismatch"
+                    out.append(line)
                 elif w[0] == "mincomb":
                     sc = [int(x) for x in w[3:]]
                     els = list(range(len(sc)))
@@ -100,7 +110,17 @@ class Prop(SeqProp):
                 got = parse_combos(line)
             except Exception:
                 return f"op {i} `{op}`: unparsable {line[:200]!r}"
-            if w[0] == "combos":
+            if w[0] == "combosE":
+                es = [int(x) for x in w[1:]]
+                allc = [c for r in range(1, len(es) + 1) for c in itertools.combinations(es, r)]
+                if sorted(c for c, _ in got) != sorted(allc):
+                    return f"op {i} `{op}`: not every non-empty combination of the elements exactly once"
+                if any(k != sum(c) for c, k in got):
+                    return f"op {i} `{op}`: a key alongside is not the key of its combination"
+                ks = [k for _, k in got]
+                if ks != sorted(ks):
+                    return f"op {i} `{op}`: keys not non-decreasing: {ks}"
+            elif w[0] == "combos":
                 sc = [int(x) for x in w[1:]]
                 allc = [c for r in range(1, len(sc) + 1) for c in itertools.combinations(range(len(sc)), r)]
                 if sorted(c for c, _ in got) != sorted(allc):
